@@ -36,7 +36,7 @@ func main() {
 		r := hx.NewRng(hx.SeedFromEnv() ^ 0xc0c0)
 		st := &stats{kinds: map[string]int{}, ends: map[string]int{}, errs: map[string]int{}, depth: map[int]int{}}
 		for i := 0; i < hx.ArgInt(a, "n", 3); i++ {
-			if key, desc := historyProbe(r.Fork(), st); key != "" {
+			if key, desc := historyProbe(r.Fork(), st, historyCfg(int(hx.SeedFromEnv())+i)); key != "" {
 				emitViolation(violation{Key: key, Desc: desc, Replay: map[string]interface{}{"cmd": "harness/bin/c12 mode=history"}})
 			}
 		}
